@@ -5,18 +5,18 @@
 (* DTerm(t, L) is the structural derivative of the expression t with       *)
 (* respect to the tensor leaf L, written as an ordinary L1 term so that    *)
 (* its meaning is Sem!Eval and nothing else:                               *)
-(*     D(L)        = unit of times            D(other leaf) = unit of plus *)
+(*     D(L)        = [index = fresh index]    D(other leaf) = unit of plus *)
 (*     D(a (x) b)  = D(a) (x) b  (+)  a (x) D(b)                           *)
 (*     D(a (+) b)  = D(a) (+) D(b)                                         *)
-(*     D((+)_V a)  = (+)_{V \ inputs(L)} D(a)   (a reduced variable that a *)
-(*                   does not have free contributes only its multiplicity) *)
+(*     D((+)_V a)  = (+)_V D(a)                                            *)
 (*     D(Con)      = the same through the product / reduction it denotes   *)
 (* For flat expressions (+)_V (x)_k L_k TLC checks (Inv_AdjDefinitional)   *)
 (* that this equals the definitional form of the property: the sum, over   *)
 (* the variables the leaf does not mention, of the product of all other    *)
-(* factors.  EmitAdj emits, for every reachable program whose leaves are   *)
-(* pairwise distinct, the expected forward table and one expected adjoint  *)
-(* table per leaf; the harness runs funsor.adjoint.forward_backward.       *)
+(* factors.  EmitAdj emits, for every reachable program, the expected      *)
+(* forward table and one expected adjoint table per distinct leaf (a leaf  *)
+(* used twice gets the sum over its occurrences); the harness runs         *)
+(* funsor.adjoint.forward_backward.                                        *)
 (***************************************************************************)
 EXTENDS TermMachine
 
@@ -50,31 +50,42 @@ LeafNames(L) == {L.ins[k][1] : k \in 1..Len(L.ins)}
 RECURSIVE FoldBin(_, _)
 FoldBin(op, ts) == IF Len(ts) = 1 THEN ts[1] ELSE BinT(op, FoldBin(op, SubSeq(ts, 1, Len(ts) - 1)), ts[Len(ts)])
 
-RECURSIVE DTerm(_, _)
-DTerm(t, L) ==
-  CASE t.c = "Ten" -> (IF t = L THEN UnitTerm(ATimes) ELSE UnitTerm(APlus))
+\* Differentiation is with respect to the leaf L AT FRESH INDEX NAMES n_p (one per input n of
+\* L): an occurrence of L contributes the indicator [n = n_p for all n], everything else is
+\* the ordinary product / sum / reduction rule, and reductions sum their variables as usual
+\* (the primed names are never reduced).  So the same leaf may occur several times, under
+\* different binders that re-use its index names.  At the end the primed names are renamed
+\* back (DTerm), which for a name the root still has free is the diagonal - the convention
+\* of the property ("the product of all other factors" at the same index).
+Prime(n) == n \o "_p"
+IndT(n, size) ==
+  LET e == BinT("eq", [c |-> "Var", name |-> n, dom |-> BintD(size)],
+                      [c |-> "Var", name |-> Prime(n), dom |-> BintD(size)])
+  IN IF ATimes = "mul" THEN e ELSE [c |-> "Un", op |-> [n |-> "log", p |-> <<>>], arg |-> e]
+LeafIndicator(L) ==
+  IF L.ins = <<>> THEN UnitTerm(ATimes)
+  ELSE FoldBin(ATimes, [k \in 1..Len(L.ins) |-> IndT(L.ins[k][1], L.ins[k][2])])
+
+RECURSIVE DPrimed(_, _)
+DPrimed(t, L) ==
+  CASE t.c = "Ten" -> (IF t = L THEN LeafIndicator(L) ELSE UnitTerm(APlus))
     [] t.c = "Num" -> UnitTerm(APlus)
     [] t.c = "Bin" ->
          (IF t.op.n = ATimes
-          THEN BinT(APlus, BinT(ATimes, DTerm(t.l, L), t.r), BinT(ATimes, t.l, DTerm(t.r, L)))
-          ELSE BinT(APlus, DTerm(t.l, L), DTerm(t.r, L)))
-    [] t.c = "Red" ->
-         \* a reduced variable that is an index of L AND free in the argument stays an index;
-         \* one that the argument does not have free only contributes its multiplicity, which
-         \* is expressed as a reduction over a fresh name that nothing mentions
-         (LET free == InputNames(t.arg)
-              vs == [k \in 1..Len(t.vars) |->
-                       IF t.vars[k][1] \in LeafNames(L) /\ t.vars[k][1] \in free THEN <<"", t.vars[k][2]>>
-                       ELSE IF t.vars[k][1] \notin free THEN <<t.vars[k][1] \o "__absent", t.vars[k][2]>>
-                       ELSE t.vars[k]]
-              keep == SelectSeq(vs, LAMBDA x : x[1] # "")
-          IN IF keep = <<>> THEN DTerm(t.arg, L)
-             ELSE [c |-> "Red", op |-> t.op, arg |-> DTerm(t.arg, L), vars |-> keep])
+          THEN BinT(APlus, BinT(ATimes, DPrimed(t.l, L), t.r), BinT(ATimes, t.l, DPrimed(t.r, L)))
+          ELSE BinT(APlus, DPrimed(t.l, L), DPrimed(t.r, L)))
+    [] t.c = "Red" -> [c |-> "Red", op |-> t.op, arg |-> DPrimed(t.arg, L), vars |-> t.vars]
     [] t.c = "Con" ->
          (LET body == FoldBin(t.bin, t.terms) IN
-          IF t.red = "nullop" \/ t.vars = <<>> THEN DTerm(body, L)
-          ELSE DTerm([c |-> "Red", op |-> t.red, arg |-> body, vars |-> t.vars], L))
+          IF t.red = "nullop" \/ t.vars = <<>> THEN DPrimed(body, L)
+          ELSE [c |-> "Red", op |-> t.red, arg |-> DPrimed(body, L), vars |-> t.vars])
     [] OTHER -> UnitTerm(APlus)
+
+DTerm(t, L) ==
+  IF L.ins = <<>> THEN DPrimed(t, L)
+  ELSE [c |-> "Sub", arg |-> DPrimed(t, L),
+        subs |-> [k \in 1..Len(L.ins) |->
+                    <<Prime(L.ins[k][1]), [c |-> "Var", name |-> L.ins[k][1], dom |-> BintD(L.ins[k][2])]>>]]
 
 Distinct(s) == \A i, j \in 1..Len(s) : i # j => s[i] # s[j]
 
@@ -107,11 +118,29 @@ ProjectA(a) ==
   [ins |-> a.ti, out |-> a.to, pts |-> PtsOf(a.ti), tab |-> tb, core |-> FALSE,
    dep |-> DependsOnTab(a.ti, tb), defined |-> TabDefined(tb)]
 
+\* the distinct leaves of a term, in order of first occurrence (a leaf used several times
+\* gets ONE adjoint: the sum over its occurrences, which is what DTerm computes)
+RECURSIVE Dedupe(_)
+Dedupe(s) == IF s = <<>> THEN <<>>
+             ELSE <<Head(s)>> \o Dedupe(SelectSeq(Tail(s), LAMBDA x : x # Head(s)))
+
+RECURSIVE BoundNames(_)
+BoundNames(t) ==
+  CASE t.c = "Bin" -> BoundNames(t.l) \cup BoundNames(t.r)
+    [] t.c = "Red" -> Names(t.vars) \cup BoundNames(t.arg)
+    [] t.c = "Con" -> Names(t.vars) \cup UNION {BoundNames(t.terms[k]) : k \in 1..Len(t.terms)}
+    [] OTHER -> {}
+
+\* A name that is reduced somewhere must not also be a free input of the root: otherwise the
+\* index of a leaf occurrence under the reduction and the root's own input share a name and
+\* "the derivative with respect to the leaf" is not a function of named inputs any more.
+NoShadow(t) == BoundNames(t) \cap Names(Last.ti) = {}
+
 EmitAdj ==
   (pool # <<>> /\ nops > 0) =>
     LET t == Strip(Last)
-        ls == LeafSeq(t)
-    IN (SumProductShaped(t) /\ ls # <<>> /\ Distinct(ls)) =>
+        ls == Dedupe(LeafSeq(t))
+    IN (SumProductShaped(t) /\ ls # <<>> /\ NoShadow(t)) =>
        PrintT(ToJson([tag |-> Tag, plus |-> APlus, times |-> ATimes, t |-> t, exp |-> Project(Last),
                       adj |-> [k \in 1..Len(ls) |-> [leaf |-> ls[k], exp |-> ProjectA(Ann(DTerm(t, ls[k])))]]]))
 =============================================================================
